@@ -2,7 +2,7 @@ CLAIM = ("Termination and work bounds as solver queries: explicit step budgets (
          "unwinding assertions with bounds derived from the input sizes, over the skip loops, the SFX scan, the decoder read loop "
          "and the header-extension loops, the MacBinary envelope loop, the seek path over the 32-bit range; allocation sizes bounded by constants + bytes consumed (header growth by exactly nbytes and <= 1 MiB per request; one decoder <= about 2 MiB from the real method table; at most two decoders alive per reader).")
 ASSUMPTIONS = ["source read contract: returns <= requested, 0 at end of data, -1 on error"]
-from C16 import SKIP, it
+from C16 import SKIP, SKIP_FIX, it
 from hdr_common import l1ext, walk, extend
 from rsm_common import pos, rsm
 HARNESSES = [
@@ -14,7 +14,7 @@ HARNESSES = [
          units=["lib/lha_decoder.c:decoders[],lha_decoder_for_name", "the 12 decoder type objects"], bounds="concrete table; one symbolic 5-byte name"),
     dict(name="macbin.term", src="C13/macbin_term.c", defines=["PMIN=32"], unwind=8, unwindset={"read_macbinary_header.0": 6, "block_is_zero.0": 66, "verif_memcmp.0": 66, "strlen.0": 4}, unwind_is_property=True,
          units=["lib/macbinary.c:read_macbinary_header"], timeout=300, mem_gb=4, bounds="inner decoder delivering arbitrary pieces of >= 32 bytes (or the rest), ending anywhere", stubs=["inner decoder: arbitrary piece sizes"]),
-    SKIP, dict(name="skip.seek", src="C16/skip.c", entry="harness_seek", unwind=6, units=["lib/lha_input_stream.c:file_source_skip"], timeout=120, mem_gb=4,
+    SKIP] + SKIP_FIX[:2] + [dict(name="skip.seek", src="C16/skip.c", entry="harness_seek", unwind=6, units=["lib/lha_input_stream.c:file_source_skip"], timeout=120, mem_gb=4,
          bounds="any position/length, any skip distance 0..2^32-1 on a seekable stream", stubs=["FILE: (position, length, seekable, eof) model"]),
     it(len0=0, ret=24, timeout=120), it(len0=12, ret=1, timeout=120), it(len0=3, ret=0, timeout=120), l1ext(13), walk(16), extend(3), pos(3), rsm(2, 4, timeout=600),
     dict(name="decread.b4", src="C09/decread.c", defines=["BUFLEN=4"], unwind=8, unwindset={"lha_decoder_read.0": 7, "lha_crc16_buf.0": 6, "verif_memcpy.0": 5}, extra_srcs=["lib/crc16.c"], optional_witnesses=True,
